@@ -23,15 +23,16 @@ import (
 
 // Input is one request of the enumerated space.
 type Input struct {
-	ID      int         `json:"id"`
-	Route   string      `json:"route"` // route template
-	Method  string      `json:"method"`
-	Path    string      `json:"path"` // concrete path + query
-	Headers [][2]string `json:"headers"`
-	Body    []byte      `json:"body"`
-	Family  string      `json:"family"` // which decoder reads the body (reference acceptance rule, follow-up seed)
-	Gen     string      `json:"gen"`    // seed | bytes3 | mut1 | mut2 | trunc | params | headers
-	Desc    string      `json:"desc"`   // what was done to the seed
+	ID       int         `json:"id"`
+	Route    string      `json:"route"` // route template
+	Method   string      `json:"method"`
+	Path     string      `json:"path"` // concrete path + query
+	Headers  [][2]string `json:"headers"`
+	Body     []byte      `json:"body"`
+	Family   string      `json:"family"`              // which decoder reads the body (reference acceptance rule, follow-up seed)
+	SeedBody bool        `json:"seed_body,omitempty"` // the body is the unmodified valid seed of Family (it carries rows)
+	Gen      string      `json:"gen"`                 // seed | bytes3 | mut1 | mut2 | trunc | params | headers | lit | size
+	Desc     string      `json:"desc"`                // what was done to the seed
 }
 
 func (in *Input) header(k string) string {
@@ -891,6 +892,8 @@ var paramMenu = []string{"", "0", "-1", "1", "1e400", "99999999999999999999", "1
 
 type genOpts struct {
 	Thorough bool
+	Literals []string // string literals the ingest code compares run-time strings against (ScanLiterals)
+	Headers  []string // request headers the ingest code reads
 }
 
 // Generate builds the whole input space in a fixed order.  It is a pure function of opts, run identically by the
@@ -899,6 +902,7 @@ func Generate(o genOpts) []Input {
 	var out []Input
 	add := func(rs routeSpec, ct ctSpec, extraHeaders [][2]string, query string, v bodyVariant) {
 		in := Input{ID: len(out), Route: rs.Template, Method: rs.Method, Family: ct.Family, Gen: v.Gen, Desc: v.Desc, Body: v.Body}
+		in.SeedBody = (v.Gen == "seed" || v.Gen == "params" || v.Gen == "headers" || v.Gen == "lit") && len(v.Body) > 0 && bytes.Equal(v.Body, seedOf(ct.Family))
 		in.Path = rs.Path
 		if query != "" {
 			in.Path += "?" + query
@@ -1082,6 +1086,29 @@ func Generate(o genOpts) []Input {
 					}
 				}
 			}
+			// (v) every string literal the ingest code compares run-time strings against (found in the source at run
+			// time), alone and embedded, as value of every query parameter, of every header the code reads, and as body
+			if !alias {
+				for _, l := range o.Literals {
+					for _, val := range []string{l, "x" + l + "y"} {
+						for _, p := range params {
+							q := cloneValues(base)
+							q.Set(p, val)
+							add(rs, ct, nil, q.Encode(), bodyVariant{seed, "lit", fmt.Sprintf("%s=%q", p, val)})
+						}
+						for _, h := range o.Headers {
+							if val != l && !o.Thorough {
+								break // quick: headers get the literal itself only
+							}
+							if h == "Content-Type" {
+								continue // selects the decoder: covered by the Content-Type menus
+							}
+							add(rs, ct, [][2]string{{h, val}}, rs.Query, bodyVariant{seed, "lit", fmt.Sprintf("%s: %q", h, val)})
+						}
+						add(rs, ct, nil, rs.Query, bodyVariant{[]byte(val), "lit", fmt.Sprintf("body %q", val)})
+					}
+				}
+			}
 			for _, ce := range []string{"br", "GZIP", "gzip, gzip", "identity", "deflate"} {
 				add(rs, ct, [][2]string{{"Content-Encoding", ce}}, rs.Query, bodyVariant{seed, "headers", "Content-Encoding=" + ce})
 			}
@@ -1100,7 +1127,7 @@ func Generate(o genOpts) []Input {
 	}
 	// order: seeds, single mutations, parameter / header menus, truncations, short byte strings, and pairs of mutations
 	// last (if the internal deadline ever cuts a run short, what is left unexplored is the tail of the pairs)
-	prio := map[string]int{"seed": 0, "mut1": 1, "params": 2, "headers": 3, "trunc": 4, "bytes3": 5, "mut2": 6}
+	prio := map[string]int{"seed": 0, "mut1": 1, "params": 2, "headers": 3, "lit": 3, "trunc": 4, "bytes3": 5, "mut2": 6}
 	sort.SliceStable(out, func(i, j int) bool { return prio[out[i].Gen] < prio[out[j].Gen] })
 	for i := range out {
 		out[i].ID = i
@@ -1465,4 +1492,18 @@ func GenerateSizes(o genOpts, firstID int) []Input {
 		}
 	}
 	return out
+}
+
+var seedCache = map[string][]byte{}
+
+func seedOf(fam string) []byte {
+	if b, ok := seedCache[fam]; ok {
+		return b
+	}
+	var b []byte
+	if _, ok := familyOK[fam]; ok && fam != "health" {
+		b = seedBody(fam, "")
+	}
+	seedCache[fam] = b
+	return b
 }
